@@ -3,6 +3,9 @@ import TinsModel.Follower.LemmasStep
 import TinsModel.Follower.LemmasSim
 import TinsModel.Follower.LemmasRoute
 import TinsModel.Follower.LemmasDeliver
+import TinsModel.Follower.LemmasLimit
+import TinsModel.Follower.LemmasFold
+import TinsModel.Follower.LemmasStreamData
 /- Property C07 — stream follower tracks connections, directions and lifetimes: the property theorems.
    Model: TinsModel/Follower/Model.lean (code-shaped, generic in the connection key; the code is `keyOf = identOf`).
    Reference: TinsModel/Follower/Spec.lean (`refKeyOf` = family + unordered endpoint pair). -/
@@ -71,13 +74,16 @@ example : CrossFamilyTwin syn4 syn6 := by decide
 
 /-! ## 2. bounded memory per connection -/
 
-/-- At every step boundary of every capture, every live connection is within both buffering limits
+/-- At every step boundary of every capture, every live connection is within the three limits
     (`chunks` = entries of both flows' `buffered_payload_`, `bytes` = the `uint32_t` sum of both flows'
-    `total_buffered_bytes_`, exactly the quantities `StreamFollower::process_packet` tests).  Holds for every key
-    function, in particular for the code (`identOf`) and the reference (`refKeyOf`).
-    That the byte counter equals the bytes really held is C06's invariant (checked here by the oracle at run time). -/
+    `total_buffered_bytes_`, `sacked` = the `uint32_t` sum of both ACK trackers' `acked_intervals().iterative_size()`,
+    exactly the quantities `StreamFollower::process_packet` tests).  Holds for every configuration (ACK tracking on or
+    off per flow, any limits) and every key function, in particular for the code (`identOf`) and the reference
+    (`refKeyOf`).  That the byte counter equals the bytes really held is C06's invariant (checked here by the oracle at
+    run time); that the intervals are the maximal runs of SACKed positions is C19's theorem about the imported tracker. -/
 theorem memory_bound {κ : Type} [DecidableEq κ] (cfg : Cfg) (keyOf : Pkt → κ) (lt : κ → κ → Bool) (h : List Pkt) :
-    ∀ e ∈ (run cfg keyOf lt Follower.empty h).1.streams, e.2.chunks ≤ cfg.maxChunks ∧ e.2.bytes ≤ cfg.maxBytes :=
+    ∀ e ∈ (run cfg keyOf lt Follower.empty h).1.streams,
+      e.2.chunks ≤ cfg.maxChunks ∧ e.2.bytes ≤ cfg.maxBytes ∧ e.2.sacked ≤ cfg.maxSacked :=
   run_within cfg keyOf lt h Follower.empty (by intro e he; cases he)
 
 /-! ## 3. the follower refines the reference connection table -/
@@ -91,7 +97,7 @@ def trace_refines_reference : Prop :=
   ∀ (cfg : Cfg) (h : List Pkt), (∀ p ∈ h, WellFormed p) →
     (Model.run cfg Follower.empty h).2 = (Ref.run cfg Follower.empty h).2.map (List.map (Ev.mapKey RefKey.ident))
 
-def cfg0 : Cfg := ⟨false, 512, 3145728, 300000000, true⟩
+def cfg0 : Cfg := { attach := false, maxChunks := 512, maxBytes := 3145728, keepAlive := 300000000, acl := true }
 
 /-- KF-C07-1 witness, replayed on the real code by the check: SYN of an IPv4 connection, then SYN of the IPv6
     connection `a.b.c.d::` with the same ports — the reference announces both, the follower only the first. -/
@@ -165,7 +171,7 @@ theorem announce_iff (cfg : Cfg) (keyOf : Pkt → κ) (lt : κ → κ → Bool) 
       · cases x <;> simp [liftEv, Ev.isNew] at hc
       · simp [Ev.isNew] at hc
       · simp [Ev.isNew] at hc
-    · obtain ⟨_, _, _, _, rfl⟩ := sweep_events_timeout cfg lt _ _ e he
+    · obtain ⟨_, _, _, _, _, rfl⟩ := sweep_events_timeout cfg lt _ _ e he
       simp [Ev.isNew] at hc
   · rintro ⟨rfl, hf, hs⟩
     have ha : announces cfg keyOf F p = true := by unfold announces; simp [hf, hs]
@@ -202,7 +208,8 @@ theorem forget_iff (cfg : Cfg) (keyOf : Pkt → κ) (lt : κ → κ → Bool) (F
     closed ⟺ the packet's own connection is finished after the packet;
     terminated(BUFFERED_DATA) ⟺ the packet's own connection is over a buffering limit after the packet;
     terminated(TIMEOUT) ⟺ the sweep is due and the connection, as the packet left it, was last seen a keep-alive ago;
-    terminated(SACKED_SEGMENTS) never (ACK tracking off). -/
+    terminated(SACKED_SEGMENTS) ⟺ the packet's own connection is within both buffering limits after the packet and its two
+    ACK trackers together hold more than `maxSacked` intervals. -/
 theorem forget_reason (cfg : Cfg) (keyOf : Pkt → κ) (lt : κ → κ → Bool) (F : Follower κ) (p : Pkt) (k : κ)
     (hu : UniqueKeys F.streams) :
     ((∃ e ∈ (step cfg keyOf lt F p).2, Ev.isClosed k e = true) ↔
@@ -213,11 +220,43 @@ theorem forget_reason (cfg : Cfg) (keyOf : Pkt → κ) (lt : κ → κ → Bool)
     ((∃ e ∈ (step cfg keyOf lt F p).2, Ev.isTerm k .timeout e = true) ↔
         (sweepDue cfg (stepCore cfg keyOf F p).1 p.ts ∧
           ∃ s, find? (stepCore cfg keyOf F p).1.streams k = some s ∧ s.lastSeen + cfg.keepAlive ≤ p.ts)) ∧
-    (∀ e ∈ (step cfg keyOf lt F p).2, Ev.isTerm k .sackedSegments e = false) := by
-  refine ⟨closed_iff cfg keyOf lt F p k, ?_, term_timeout_iff cfg keyOf lt F p k hu, no_sacked cfg keyOf lt F p k⟩
+    ((∃ e ∈ (step cfg keyOf lt F p).2, Ev.isTerm k .sackedSegments e = true) ↔
+        (k = keyOf p ∧ ∃ s, target cfg keyOf F p = some s ∧
+          (after s p).chunks ≤ cfg.maxChunks ∧ (after s p).bytes ≤ cfg.maxBytes ∧ (after s p).sacked > cfg.maxSacked)) := by
+  refine ⟨closed_iff cfg keyOf lt F p k, ?_, term_timeout_iff cfg keyOf lt F p k hu, ?_⟩
+  rotate_left
+  · have := term_sacked_iff cfg keyOf lt F p k
+    unfold overLimit at this
+    simp only [Bool.or_eq_false_iff, decide_eq_false_iff_not, Nat.not_lt] at this
+    simpa only [and_assoc] using this
   have := term_buffered_iff cfg keyOf lt F p k
   unfold overLimit at this
   simpa only [Bool.or_eq_true, decide_eq_true_eq] using this
+
+/-- **sacked_limit.**  The third limit of `StreamFollower::process_packet`, for every configuration and every state with
+    unique keys (every reachable state, `reachable_unique`):
+    (1) SACKED_SEGMENTS is reported for `k` in a step exactly when `k` is the packet's connection and, after the packet,
+        is within both buffering limits while its ACK trackers hold more than `maxSacked` intervals (the count is the
+        `uint32_t` sum of both flows' interval counts);
+    (2) the connection is then forgotten in that very step (`find_stream` fails afterwards);
+    (3) no step reports a connection terminated twice — limits check and idle sweep together make at most one
+        termination callback per connection, so with `announce_once` (no callback for a connection that is not live)
+        crossing the limit is reported exactly once per lifetime.
+    That every connection still live at a step boundary holds at most `maxSacked` intervals is `memory_bound`. -/
+theorem sacked_limit (cfg : Cfg) (keyOf : Pkt → κ) (lt : κ → κ → Bool) (F : Follower κ) (p : Pkt) (k : κ)
+    (hu : UniqueKeys F.streams) :
+    ((∃ e ∈ (step cfg keyOf lt F p).2, Ev.isTerm k .sackedSegments e = true) ↔
+        (k = keyOf p ∧ ∃ s, target cfg keyOf F p = some s ∧
+          (after s p).chunks ≤ cfg.maxChunks ∧ (after s p).bytes ≤ cfg.maxBytes ∧ (after s p).sacked > cfg.maxSacked)) ∧
+    ((∃ e ∈ (step cfg keyOf lt F p).2, Ev.isTerm k .sackedSegments e = true) →
+        find? (step cfg keyOf lt F p).1.streams k = none) ∧
+    (step cfg keyOf lt F p).2.countP (Ev.isTermOf k) ≤ 1 := by
+  refine ⟨(forget_reason cfg keyOf lt F p k hu).2.2.2, ?_, step_term_count cfg keyOf lt F p k hu⟩
+  rintro ⟨e, he, ht⟩
+  have hend : ∃ e ∈ (step cfg keyOf lt F p).2, e.isEnd k = true := by
+    refine ⟨e, he, ?_⟩
+    cases e <;> simp_all [Ev.isTerm, Ev.isEnd]
+  exact ((forget_iff cfg keyOf lt F p k hu).1.2 ((forget_iff cfg keyOf lt F p k hu).2.1 hend)).2
 
 end generic
 
@@ -291,13 +330,13 @@ example :
 /-- The payload of an initial SYN segment (TCP Fast Open) is handed to the application whole — one client-data callback
     carrying exactly the payload — by the stream the SYN creates; afterwards the client direction expects the byte after
     it (`isn + 1 + |d|`) and nothing is buffered.  (Before the fix the first byte was dropped and the direction stalled.) -/
-theorem syn_payload_delivered (acl : Bool) (p : Pkt) (d : Bytes)
+theorem syn_payload_delivered (cfg : Cfg) (p : Pkt) (d : Bytes) (hi : cfg.ignC = false)
     (hs : p.syn = true) (hr : p.rst = false) (hf : p.fin = false) (hp : p.payload = some d)
     (h0 : 0 < d.length) (hn : d.length < 2147483648) :
-    (Stream.route { (Stream.ofPacket p acl) with lastSeen := p.ts } p).2 = [SEv.data true d] ∧
-    (Stream.route { (Stream.ofPacket p acl) with lastSeen := p.ts } p).1.client.tr.seq = wrap32 (wrap32 (p.seq + 1) + d.length) ∧
-    (Stream.route { (Stream.ofPacket p acl) with lastSeen := p.ts } p).1.client.tr.buf = [] :=
-  Tins.SF.syn_payload_delivered acl p d hs hr hf hp h0 hn
+    (Stream.route { (Stream.ofPacket cfg p) with lastSeen := p.ts } p).2 = [SEv.data true d] ∧
+    (Stream.route { (Stream.ofPacket cfg p) with lastSeen := p.ts } p).1.client.tr.seq = wrap32 (wrap32 (p.seq + 1) + d.length) ∧
+    (Stream.route { (Stream.ofPacket cfg p) with lastSeen := p.ts } p).1.client.tr.buf = [] :=
+  Tins.SF.syn_payload_delivered cfg p d hi hs hr hf hp h0 hn
 
 example : ({ syn4 with payload := some [1, 2, 3] } : Pkt).syn = true ∧ ({ syn4 with payload := some [1, 2, 3] } : Pkt).rst = false := by decide
 
@@ -319,6 +358,24 @@ example : EndsNow cfg0 identOf (Model.run cfg0 Follower.empty [syn4]).1 late6 (i
 example : (Model.run cfg0 Follower.empty [syn4, late6]).1.streams.length = 1 ∧
     (Model.run cfg0 Follower.empty [syn4, late6]).2.flatten.length = 3 := by
   decide
+
+/-! non-vacuity of `sacked_limit`: ACK tracking on for both flows, limit lowered to one interval; after the handshake a
+    client segment carrying two SACK blocks above the cumulative ACK makes the limits check report SACKED_SEGMENTS, once,
+    and the connection is forgotten; with one block it stays live, within the limit -/
+
+def cfgS : Cfg := { cfg0 with maxSacked := 1, ackC := true, ackS := true }
+def synack4 : Pkt := { syn4 with src := syn4.dst, dst := syn4.src, sport := 80, dport := 1234, flags := 18, seq := 500, ack := 101, ts := 1001 }
+def ack4 : Pkt := { syn4 with flags := 16, seq := 101, ack := 501, ts := 1002 }
+def sack4 (edges : List Nat) : Pkt := { ack4 with ts := 1003, sack := .edges edges }
+
+example :
+    let r := Model.run cfgS Follower.empty [syn4, synack4, ack4, sack4 [510, 520, 530, 540]]
+    r.2.flatten.countP (Ev.isTerm (identOf syn4) .sackedSegments) = 1 ∧ r.2.flatten.countP (Ev.isTermOf (identOf syn4)) = 1 ∧
+    r.1.streams.length = 0 := by decide
+
+example :
+    let r := Model.run cfgS Follower.empty [syn4, synack4, ack4, sack4 [510, 520]]
+    r.2.flatten.countP (Ev.isTermOf (identOf syn4)) = 0 ∧ (r.1.streams.map (fun e => e.2.sacked)) = [1] := by decide
 
 /-! ## 8. refinement with collisions excluded only among live connections -/
 
@@ -345,5 +402,277 @@ example : NoLiveCollision cfg0 [syn4, rst4, syn6] ∧ ¬ CollisionFree [syn4, rs
   · intro h
     have := h syn4 List.mem_cons_self syn6 (List.mem_cons_of_mem _ (List.mem_cons_of_mem _ List.mem_cons_self)) (by decide)
     revert this; decide
+
+/-! ## 9. per-flow state is a fold, and per-flow delivery is C06's theorem
+
+  `LiveThrough cfg keyOf lt F h k` : connection `k` is live after every packet of `h` (it may be created and forgotten any
+  number of times before `F`; these theorems describe one lifetime, from any state in which it is live).
+  `Stream.toClient s p` / `toServer` : which flow of `s` claims `p` (`route_correct`: the one whose destination endpoint `p` names).
+  `Flow.feed acl f ps` : `Flow::process_packet` (+ the stream's data handler) folded over `ps`;
+  `Flow.feedHanded acl f ps` : what that fold hands to the data callback, packet by packet;
+  `handedIn k c trace` : the payloads the follower's callback trace hands to the data callback of direction `c` of `k`. -/
+
+section generic
+variable {κ : Type} [DecidableEq κ]
+
+/-- **flow_is_fold.**  For as long as a connection stays live — for every interleaving with packets of other connections,
+    every configuration, every key function (so for the code's `identOf`, where under `NoLiveCollision` the key classes
+    are the real connections, and for the reference's `refKeyOf`) — the stream the follower holds for it is
+    `Stream::process_packet` folded over the connection's own packets; its client flow is `Flow::process_packet` folded over
+    exactly the packets of the connection that the client flow claims, its server flow over those the server flow
+    claims; and the payloads handed to the two data callbacks in the follower's trace are those the two flow folds hand
+    over.  (`route_correct` is the one-step form of the routing.) -/
+theorem flow_is_fold (cfg : Cfg) (keyOf : Pkt → κ) (lt : κ → κ → Bool) (h : List Pkt) (F : Follower κ) (k : κ) (s : Stream)
+    (hu : UniqueKeys F.streams) (hf : find? F.streams k = some s) (hl : LiveThrough cfg keyOf lt F h k) :
+    let sub := h.filter (fun p => decide (keyOf p = k))
+    ∃ s', find? (run cfg keyOf lt F h).1.streams k = some s' ∧ s' = s.feed sub ∧
+      s'.client = s.client.feed s.acl (sub.filter s.toClient) ∧
+      s'.server = s.server.feed s.acl (sub.filter s.toServer) ∧
+      handedIn k true (run cfg keyOf lt F h).2.flatten = Flow.feedHanded s.acl s.client (sub.filter s.toClient) ∧
+      handedIn k false (run cfg keyOf lt F h).2.flatten = Flow.feedHanded s.acl s.server (sub.filter s.toServer) := by
+  intro sub
+  obtain ⟨h1, h2⟩ := run_projects cfg keyOf lt h F k s hu hf hl
+  obtain ⟨f1, f2, _⟩ := feed_flows sub s
+  obtain ⟨t1, t2⟩ := feedTrace_handed k keyOf h s
+  refine ⟨_, h1, rfl, f1, f2, ?_, ?_⟩
+  · rw [← handedIn_flatten_filter, h2]; exact t1
+  · rw [← handedIn_flatten_filter, h2]; exact t2
+
+/-- the creating packet: a connection that is not live, whose packet may start it and which survives that packet, is
+    afterwards held as `Stream::process_packet` applied to the freshly constructed stream (`fresh`: `Stream(packet)`, the
+    new-stream callback, ESTABLISHED forcing when attached mid-stream), and the callbacks are the announcement followed
+    by those of that one application -/
+theorem lifetime_starts (cfg : Cfg) (keyOf : Pkt → κ) (lt : κ → κ → Bool) (F : Follower κ) (p : Pkt)
+    (hu : UniqueKeys F.streams) (hf : find? F.streams (keyOf p) = none) (hs : startable cfg p = true)
+    (hl : (find? (step cfg keyOf lt F p).1.streams (keyOf p)).isSome = true) :
+    find? (step cfg keyOf lt F p).1.streams (keyOf p) = some (after (fresh cfg p) p) ∧
+    (step cfg keyOf lt F p).2.filter (fun e => decide (e.key = keyOf p)) =
+      Ev.new (keyOf p) (fresh cfg p).sid (fresh cfg p).isPartial :: liveEvents (keyOf p) (fresh cfg p) p :=
+  step_creates cfg keyOf lt F p hu hf hs hl
+
+/-- **per_flow_delivery (client direction).**  Composition of `flow_is_fold` with C06's refinement theorem.  Let the
+    connection `k` be live on stream `s0`, its client flow out of the handshake with a tracker that is C06's model after
+    the arrivals `h0` of the byte stream `sc` (initial sequence number `isn`; `D` = bytes already handed over and cleared
+    by auto-cleanup) — `FlowInv`, established by `syn_starts_client` / `attach_starts` below.  Then for every capture `h`
+    through which `k` stays live and in which every data segment routed to the client flow carries bytes of `sc`
+    (`DirOK`: C06's `okAt` for each, at the offset its sequence number names) — whatever the packets of other connections
+    and of the opposite direction are —
+    * the payloads handed to the client data callback are exactly `expectedHanded`: after each segment that moves the
+      frontier the bytes from the old to the new frontier (auto-cleanup) or the whole prefix up to the new frontier;
+    * put together (auto-cleanup) they are `sc` from the old frontier up to the final frontier, each byte once;
+    * afterwards the client flow satisfies the invariant again, for the extended arrival history. -/
+theorem per_flow_delivery_client (cfg : Cfg) (keyOf : Pkt → κ) (lt : κ → κ → Bool) (h : List Pkt) (F : Follower κ) (k : κ)
+    (s0 : Stream) (hu : UniqueKeys F.streams) (hf : find? F.streams k = some s0) (hl : LiveThrough cfg keyOf lt F h k)
+    (sc : Bytes) (isn : Nat) (hs : sc.length < 2147483648) (hisn : isn < 4294967296) (h0 : List Tins.DT.SegD) (D : Bytes)
+    (inv : FlowInv s0.acl sc isn s0.client h0 D)
+    (hok : DirOK sc isn h0 ((h.filter (fun p => decide (keyOf p = k))).filter s0.toClient)) :
+    let sub := (h.filter (fun p => decide (keyOf p = k))).filter s0.toClient
+    handedIn k true (run cfg keyOf lt F h).2.flatten = expectedHanded s0.acl sc isn h0 sub ∧
+    (s0.acl = true → (handedIn k true (run cfg keyOf lt F h).2.flatten).flatten =
+        (sc.take (Tins.DT.frontier ((dirHist sc isn h0 sub).map Tins.DT.SegD.seg) sc.length)).drop
+          (Tins.DT.frontier (h0.map Tins.DT.SegD.seg) sc.length)) ∧
+    ∃ s' D', find? (run cfg keyOf lt F h).1.streams k = some s' ∧
+      FlowInv s0.acl sc isn s'.client (dirHist sc isn h0 sub) D' := by
+  intro sub
+  obtain ⟨s', g1, _, g3, _, g5, _⟩ := flow_is_fold cfg keyOf lt h F k s0 hu hf hl
+  obtain ⟨⟨D', i1⟩, i2⟩ := flow_fold_delivers s0.acl sc isn hs hisn sub s0.client h0 D inv hok
+  refine ⟨by rw [g5]; exact i2, ?_, s', D', g1, by rw [g3]; exact i1⟩
+  intro ha
+  rw [g5, i2, ha]
+  exact (expectedHanded_flatten sc isn sub h0).1
+
+/-- **per_flow_delivery (server direction)** — the same for the server flow and the server data callback. -/
+theorem per_flow_delivery_server (cfg : Cfg) (keyOf : Pkt → κ) (lt : κ → κ → Bool) (h : List Pkt) (F : Follower κ) (k : κ)
+    (s0 : Stream) (hu : UniqueKeys F.streams) (hf : find? F.streams k = some s0) (hl : LiveThrough cfg keyOf lt F h k)
+    (ss : Bytes) (isn : Nat) (hs : ss.length < 2147483648) (hisn : isn < 4294967296) (h0 : List Tins.DT.SegD) (D : Bytes)
+    (inv : FlowInv s0.acl ss isn s0.server h0 D)
+    (hok : DirOK ss isn h0 ((h.filter (fun p => decide (keyOf p = k))).filter s0.toServer)) :
+    let sub := (h.filter (fun p => decide (keyOf p = k))).filter s0.toServer
+    handedIn k false (run cfg keyOf lt F h).2.flatten = expectedHanded s0.acl ss isn h0 sub ∧
+    (s0.acl = true → (handedIn k false (run cfg keyOf lt F h).2.flatten).flatten =
+        (ss.take (Tins.DT.frontier ((dirHist ss isn h0 sub).map Tins.DT.SegD.seg) ss.length)).drop
+          (Tins.DT.frontier (h0.map Tins.DT.SegD.seg) ss.length)) ∧
+    ∃ s' D', find? (run cfg keyOf lt F h).1.streams k = some s' ∧
+      FlowInv s0.acl ss isn s'.server (dirHist ss isn h0 sub) D' := by
+  intro sub
+  obtain ⟨s', g1, _, _, g4, _, g6⟩ := flow_is_fold cfg keyOf lt h F k s0 hu hf hl
+  obtain ⟨⟨D', i1⟩, i2⟩ := flow_fold_delivers s0.acl ss isn hs hisn sub s0.server h0 D inv hok
+  refine ⟨by rw [g6]; exact i2, ?_, s', D', g1, by rw [g4]; exact i1⟩
+  intro ha
+  rw [g6, i2, ha]
+  exact (expectedHanded_flatten ss isn sub h0).1
+
+end generic
+
+/-- what the invariant says about the flow, in C06's own terms: with the cleared bytes put back, the flow's tracker
+    satisfies C06's whole specification (`specOKw`: delivered = the stream prefix up to the frontier, next expected sequence
+    number = `isn` + frontier, every buffered chunk strictly above the frontier, inside the stream and equal to it, byte
+    counter = bytes held) -/
+theorem flow_inv_is_c06_spec (acl : Bool) (s : Bytes) (isn : Nat) (f : Flow) (h : List Tins.DT.SegD) (D : Bytes)
+    (hs : s.length < 2147483648) (hisn : isn < 4294967296) (inv : FlowInv acl s isn f h D) :
+    Tins.DT.specOKw s isn (h.map Tins.DT.SegD.seg) (Tins.DT.prefixP D f.tr).obs = true ∧
+    D ++ f.tr.payload = s.take (Tins.DT.frontier (h.map Tins.DT.SegD.seg) s.length) := by
+  have h1 := Tins.Props.C06.tracker_refines_spec_wide s isn h hs hisn inv.ti.ok
+  have h2 := Tins.Props.C06.delivered_is_prefix s isn h hs hisn inv.ti.ok
+  rw [← inv.ti.tr] at h1 h2
+  exact ⟨h1, h2⟩
+
+/-- how a lifetime starts, initial SYN: after the SYN `p` that creates it (no FIN / RST on it) the client flow of the new
+    stream satisfies the invariant for the stream that starts one past the SYN's sequence number — including the data the
+    SYN itself may carry (TCP Fast Open), which has been handed over as `expectedHanded1` says -/
+theorem syn_starts_client (cfg : Cfg) (sc : Bytes) (p : Pkt) (hs : sc.length < 2147483648)
+    (hi : cfg.ignC = false) (hrec : cfg.recovery = none) (h1 : p.syn = true) (h2 : p.rst = false) (h3 : p.fin = false)
+    (hp : pktOK sc (wrap32 (p.seq + 1)) [] p) :
+    (∃ D', FlowInv cfg.acl sc (wrap32 (p.seq + 1)) (after (Stream.ofPacket cfg p) p).client (dirStep sc (wrap32 (p.seq + 1)) [] p) D') ∧
+    (Stream.ofPacket cfg p).client.handed p = expectedHanded1 cfg.acl sc (wrap32 (p.seq + 1)) [] p := by
+  have hb : (Stream.ofPacket cfg p).toClient p = true := by
+    simp [Stream.toClient, Stream.ofPacket, Flow.configure, Flow.init, Flow.packetBelongs]
+  have ha := (after_flows (Stream.ofPacket cfg p) p).1
+  rw [hb] at ha
+  simp only [if_true] at ha
+  rw [ha]
+  have hds : p.dataSeq = wrap32 (p.seq + 1) := by unfold Pkt.dataSeq; simp [h1]
+  exact flow_step_syn cfg.acl sc (Stream.ofPacket cfg p).client p.dataSeq p hs rfl hi
+    (by simp [Stream.ofPacket, Flow.configure, hrec]) rfl h1 h2 h3 hp
+
+/-- how a lifetime starts, attached mid-stream: both flows of the stream created for a non-SYN packet are forced to
+    ESTABLISHED before the packet is processed, with empty trackers expecting the packet's own sequence number (client
+    direction) and its acknowledgement number (server direction): both satisfy the invariant, with no arrival yet -/
+theorem attach_starts (cfg : Cfg) (sc ss : Bytes) (p : Pkt) (hsyn : (p.syn && !p.ackf) = false)
+    (hic : cfg.ignC = false) (his : cfg.ignS = false) (hrec : cfg.recovery = none) :
+    FlowInv cfg.acl sc p.dataSeq (fresh cfg p).client [] [] ∧ FlowInv cfg.acl ss p.ack (fresh cfg p).server [] [] := by
+  unfold fresh
+  simp only [hsyn, Bool.false_eq_true, if_false]
+  exact ⟨⟨by simp [Stream.established], hic, by simp [Stream.established, Stream.ofPacket, Flow.configure, hrec],
+           ⟨rfl, trivial, fun _ => rfl, fun _ => rfl⟩⟩,
+         ⟨by simp [Stream.established], his, by simp [Stream.established, Stream.ofPacket, Flow.configure, hrec],
+           ⟨rfl, trivial, fun _ => rfl, fun _ => rfl⟩⟩⟩
+
+/-! non-vacuity of section 9: a client stream of 5 bytes at an ISN just below the wrap point, connection 1.2.3.4:1234 ->
+    5.6.7.8:80 interleaved with another connection (same hosts, other client port); the segments arrive out of order with
+    an overlap (`[4,5]` first, then `[1,2]`, then `[2,3]`); after the SYN the hypotheses of `per_flow_delivery_client` hold and the callback is handed `[1,2]` then
+    `[3,4,5]` -/
+
+def isnX : Nat := 4294967294
+def synX : Pkt := { syn4 with seq := isnX }
+def dX (seq : Nat) (d : Bytes) (ts : Nat) : Pkt := { syn4 with flags := 24, seq := seq, ack := 501, payload := some d, ts := ts }
+def otherX : Pkt := { syn4 with sport := 1235, ts := 1001 }
+def histX : List Pkt := [otherX, dX 2 [4, 5] 1002, { otherX with flags := 24, seq := 101, payload := some [9] },
+                         dX 4294967295 [1, 2] 1003, dX 0 [2, 3] 1004]
+
+example :
+    let F := (Model.run cfg0 Follower.empty [synX]).1
+    let k := identOf synX
+    let s0 := after (Stream.ofPacket cfg0 synX) synX
+    find? F.streams k = some s0 ∧ LiveThrough cfg0 identOf Ident.lt F histX k ∧
+    DirOK [1, 2, 3, 4, 5] (wrap32 (isnX + 1)) [] ((histX.filter (fun p => decide (identOf p = k))).filter s0.toClient) ∧
+    pktOK [1, 2, 3, 4, 5] (wrap32 (synX.seq + 1)) [] synX ∧
+    handedIn k true (Model.run cfg0 F histX).2.flatten = [[1, 2], [3, 4, 5]] := by
+  refine ⟨by rfl, by decide, by decide, by decide, by decide⟩
+
+
+/-! ## 10. `ignore_client_data` / `ignore_server_data`, and the follower without a new-stream callback -/
+
+section generic
+variable {κ : Type} [DecidableEq κ]
+
+/-- **ignore_data.**  A direction the application asked to ignore (in the new-stream callback: `cfg.ignC` / `cfg.ignS` set
+    `flags_.ignore_data_packets` of the flow for good) is never handed any data for as long as the connection lives, for every
+    capture; its flow still follows the flags (so `forget_iff`, `finished_iff_flags` and the limits apply unchanged: they hold
+    for every configuration). -/
+theorem ignore_data (cfg : Cfg) (keyOf : Pkt → κ) (lt : κ → κ → Bool) (h : List Pkt) (F : Follower κ) (k : κ) (s : Stream)
+    (hu : UniqueKeys F.streams) (hf : find? F.streams k = some s) (hl : LiveThrough cfg keyOf lt F h k) :
+    (s.client.ignoreData = true → handedIn k true (run cfg keyOf lt F h).2.flatten = []) ∧
+    (s.server.ignoreData = true → handedIn k false (run cfg keyOf lt F h).2.flatten = []) := by
+  obtain ⟨_, _, _, _, _, g5, g6⟩ := flow_is_fold cfg keyOf lt h F k s hu hf hl
+  exact ⟨fun hi => by rw [g5]; exact (feedHanded_ignored _ _ _ hi).1, fun hi => by rw [g6]; exact (feedHanded_ignored _ _ _ hi).1⟩
+
+/-- … and the flags are what the configuration says, from the creation of the stream on -/
+theorem ignore_flags_from_cfg (cfg : Cfg) (p : Pkt) :
+    (fresh cfg p).client.ignoreData = cfg.ignC ∧ (fresh cfg p).server.ignoreData = cfg.ignS := by
+  unfold fresh; split <;> exact ⟨rfl, rfl⟩
+
+/-- **no new-stream callback.**  `stepX` / `runX` are `StreamFollower::process_packet` with `on_new_connection_` possibly
+    empty.  `callback_not_set` leaves the call exactly when no callback is installed and the packet would create a stream
+    (its connection is not live and it is an initial SYN or, when attaching, carries data); the stream is then live, held
+    as its constructor left it, no callback has been made and nothing else changed.  With the callback installed `runX`
+    is `run`, so every theorem of this file applies to it; in both cases keys stay unique and every live stream stays
+    within the three limits. -/
+theorem callback_not_set_path (cfg : Cfg) (keyOf : Pkt → κ) (lt : κ → κ → Bool) :
+    (∀ F p, ((stepX cfg keyOf lt F p).2.2 = true ↔
+        (cfg.cbSet = false ∧ find? F.streams (keyOf p) = none ∧ startable cfg p = true)) ∧
+      ((stepX cfg keyOf lt F p).2.2 = true →
+        (stepX cfg keyOf lt F p).2.1 = [] ∧
+        find? (stepX cfg keyOf lt F p).1.streams (keyOf p) = some (Stream.ofPacket cfg.raw p) ∧
+        ∀ k, k ≠ keyOf p → find? (stepX cfg keyOf lt F p).1.streams k = find? F.streams k)) ∧
+    (cfg.cbSet = true → ∀ h F, (runX cfg keyOf lt F h).1 = (run cfg keyOf lt F h).1 ∧
+        (runX cfg keyOf lt F h).2 = (run cfg keyOf lt F h).2.map (fun evs => (evs, false))) ∧
+    (∀ h, UniqueKeys (runX cfg keyOf lt Follower.empty h).1.streams ∧
+      ∀ e ∈ (runX cfg keyOf lt Follower.empty h).1.streams,
+        e.2.chunks ≤ cfg.maxChunks ∧ e.2.bytes ≤ cfg.maxBytes ∧ e.2.sacked ≤ cfg.maxSacked) :=
+  ⟨fun F p => stepX_throws_iff cfg keyOf lt F p,
+   fun hc h F => runX_of_cbSet cfg keyOf lt h F hc,
+   fun h => ⟨runX_unique cfg keyOf lt h Follower.empty empty_unique,
+             runX_within cfg keyOf lt h Follower.empty (by intro e he; cases he)⟩⟩
+
+end generic
+
+/-- non-vacuity: without a callback the SYN throws and leaves the stream tracked; with the client direction ignored the
+    stream of section 9 hands over nothing -/
+example : (Model.stepX { cfg0 with cbSet := false } Follower.empty syn4).2.2 = true ∧
+    (Model.stepX { cfg0 with cbSet := false } Follower.empty syn4).1.streams.length = 1 := by decide
+
+example :
+    let cfgI : Cfg := { cfg0 with ignC := true }
+    let F := (Model.run cfgI Follower.empty [synX]).1
+    (F.streams.map (fun e => e.2.client.ignoreData)) = [true] ∧ LiveThrough cfgI identOf Ident.lt F histX (identOf synX) ∧
+    handedIn (identOf synX) true (Model.run cfgI F histX).2.flatten = [] := by
+  refine ⟨by decide, by decide, by decide⟩
+
+
+/-! ## 11. recovery mode (`Stream::enable_recovery_mode`)
+
+  Recovery mode is part of the model (`Cfg.recovery`, `Flow.recEnd`, `Flow.recover`) and of the correspondence; every theorem
+  above that is stated for all configurations covers it (identity, announce_once, forget_iff / forget_reason, memory_bound,
+  sacked_limit, route_correct, flow_is_fold, ignore_data, callback_not_set_path).  `per_flow_delivery_*` asks for a flow
+  without a recovery handler (`FlowInv.rc`): while the handler is installed the flow deliberately skips holes. -/
+
+/-- **recovery_skips_hole.**  What the handler does: an out-of-order segment lying ahead of the expected sequence number and
+    inside the recovery window (plain `uint32_t` comparisons, as in `Stream::recovery_mode_handler`), on a flow with nothing
+    buffered, makes the flow jump to the segment — the hole before it is given up — and the segment is delivered at once
+    (out-of-order callback, then data callback with the segment appended); the handler stays bound to the direction exactly
+    while the window's end lies beyond the segment. -/
+theorem recovery_skips_hole (f : Flow) (p : Pkt) (d : Bytes) (e : Nat)
+    (hi : (f.pre p).ignoreData = false) (hp : p.payload = some d) (hr : (f.pre p).recEnd = some e)
+    (hb : (f.pre p).tr.buf = []) (hahead : seqCompare p.dataSeq (f.pre p).tr.seq > 0)
+    (hwin : p.dataSeq > (f.pre p).tr.seq ∧ p.dataSeq ≤ e) (h0 : 0 < d.length) (hn : d.length < 2147483648) :
+    (f.processPacket p).2.1 = some (p.dataSeq, d) ∧ (f.processPacket p).2.2 = true ∧
+    (f.processPacket p).1.tr.payload = (f.pre p).tr.payload ++ d ∧
+    (f.processPacket p).1.tr.seq = wrap32 (p.dataSeq + d.length) ∧ (f.processPacket p).1.tr.buf = [] ∧
+    (f.processPacket p).1.recEnd = (if e > p.dataSeq then some e else none) :=
+  Tins.SF.recovery_skips_hole f p d e hi hp hr hb hahead hwin h0 hn
+
+/-- a flow without a recovery handler never gets one (the handler is only installed from the new-stream callback) -/
+theorem recovery_stays_off (acl : Bool) (f : Flow) (p : Pkt) (h : f.recEnd = none) : (f.stepIn acl p).recEnd = none := by
+  have hr : (f.pre p).recEnd = none := by rw [pre_recEnd]; exact h
+  by_cases hi : (f.pre p).ignoreData = true
+  · have : f.processPacket p = (f.pre p, none, false) := by unfold Flow.processPacket; simp [hi]
+    unfold Flow.stepIn; rw [this]; exact hr
+  · have hi : (f.pre p).ignoreData = false := by simpa using hi
+    cases hp : p.payload with
+    | none => unfold Flow.stepIn; rw [processPacket_none f p hp]; exact hr
+    | some d => rw [(stepIn_some acl f p d hi hr hp).2.2.2.1]; exact hr
+
+/-- non-vacuity: attached mid-stream with a recovery window of 100; the first segment the capture sees after the one it
+    attached on lies 10 bytes ahead: the hole is skipped, the segment delivered, the handler stays -/
+example :
+    let cfgR : Cfg := { cfg0 with attach := true, recovery := some 100 }
+    let p0 := dX 1000 [1] 1002
+    let p1 := dX 1011 [7, 8] 1003
+    let r := Model.run cfgR Follower.empty [p0, p1]
+    handedIn (identOf p0) true r.2.flatten = [[1], [7, 8]] ∧
+    (r.1.streams.map (fun e => (e.2.client.tr.seq, e.2.client.recEnd))) = [(1013, some 1100)] := by
+  decide
+
 
 end Tins.Props.C07
